@@ -76,6 +76,8 @@ def compute_dense_tile_occupancy(
             for s in index_expr.free_symbols
             if s.name in rank_variable_shapes
         }
+        # The extent does not depend on a constant offset in the projection
+        index_expr = index_expr - index_expr.as_coeff_Add()[0]
         result = result * ((index_expr.xreplace(subs) if subs else index_expr) + 1)
     return result
 
@@ -86,6 +88,8 @@ def compute_rank_occupancy(projection_expr: sympy.Expr, rank_variable_shapes: di
         for s in projection_expr.free_symbols
         if s.name in rank_variable_shapes
     }
+    # The extent does not depend on a constant offset in the projection
+    projection_expr = projection_expr - projection_expr.as_coeff_Add()[0]
     return (projection_expr.xreplace(subs) if subs else projection_expr) + 1
 
 
